@@ -9,3 +9,4 @@ import Gleece.Properties.C14
 #print axioms Gleece.Cli.wrap_without_propagation_breaks
 #print axioms Gleece.Cli.every_generating_command_propagates
 #print axioms Gleece.Cli.generating_commands_present
+#print axioms Gleece.Order.write_failures_are_returned
